@@ -99,6 +99,11 @@ def main():
     res.append(semantic('valexp2lean.py','val_exp: t_par = t + t_nor',[(RP,"t_par_val = t_val - t_nor_val","t_par_val = t_val + t_nor_val")]))
     res.append(semantic('valexp2lean.py','val_exp: P_n = I3 * P is fine, but coef uses cos for sin',[(RP,"coef_val = np.sin(phi) * P_val\n    coef_val[0] += np.cos(phi)","coef_val = np.cos(phi) * P_val\n    coef_val[0] += np.sin(phi)")]))
     res.append(harmless('valexp2lean.py','val_exp: sum reordered',[(RP,"R_val = coef_val + gmt_func(coef_val, mult_with_ninf(t_nor_val)) + \\\n        np.sinc(phi/np.pi) * mult_with_ninf(t_par_val)","R_val = np.sinc(phi/np.pi) * mult_with_ninf(t_par_val) + coef_val + \\\n        gmt_func(coef_val, mult_with_ninf(t_nor_val))")]))
+    MVP='clifford/_multivector.py'
+    res.append(semantic('methods2lean.py','__or__: tolerance-based scalar shortcut (seed C02_5)',[(MVP,"        if mv:\n            newValue = self.layout.imt_func(self.value, other.value)\n        else:\n            if isinstance(other, np.ndarray):\n                obj = self.__array__()\n                return obj|other","        if mv:\n            if self.isScalar() or other.isScalar():\n                return self._newMV(dtype=np.result_type(self.value.dtype, other.value.dtype))\n            newValue = self.layout.imt_func(self.value, other.value)\n        else:\n            if isinstance(other, np.ndarray):\n                obj = self.__array__()\n                return obj|other")]))
+    res.append(semantic('methods2lean.py','__rxor__: operands not swapped',[(MVP,"newValue = self.layout.omt_func(other.value, self.value)","newValue = self.layout.omt_func(self.value, other.value)")]))
+    res.append(semantic('methods2lean.py','lc: early return by top grades (seed C02_6)',[(MVP,"        other, mv = self._checkOther(other, coerce=True)\n\n        newValue = self.layout.lcmt_func(self.value, other.value)","        other, mv = self._checkOther(other, coerce=True)\n\n        if max(self.grades(eps=0), default=0) > max(other.grades(eps=0), default=0):\n            return self._newMV(dtype=np.result_type(self.value.dtype, other.value.dtype))\n        newValue = self.layout.lcmt_func(self.value, other.value)")]))
+    res.append(harmless('methods2lean.py','__mul__: scalar branch self.value * other',[(MVP,"            newValue = other * self.value\n\n        return self._newMV(newValue)\n\n    def __rmul__","            newValue = self.value * other\n\n        return self._newMV(newValue)\n\n    def __rmul__")]))
     shutil.rmtree(SCR, ignore_errors=True)
     print("all as expected" if all(res) else "SOME UNEXPECTED")
     return 0 if all(res) else 1
